@@ -957,11 +957,14 @@ class Struct(Unpacker[NDInstance]):
             "COMP",
             "COMPUTATIONAL",
         ):
-            if len(representation.digit_groups[1]) < 5:
+            digits = len(representation.digit_groups[1]) + len(
+                representation.digit_groups[3]
+            )
+            if digits < 5:
                 struct_code = "h"
-            elif 5 <= len(representation.digit_groups[1]) < 10:
+            elif 5 <= digits < 10:
                 struct_code = "i"
-            elif 10 <= len(representation.digit_groups[1]) <= 18:
+            elif 10 <= digits <= 18:
                 struct_code = "q"
             else:  # pragma: no cover
                 raise ValueError(f"Usage {representation!r} too large")
